@@ -119,6 +119,21 @@ func c01Workload(ctx *lib.Ctx, nSkel, total int) {
 		}
 		ptext := prof.Text()
 		dtext := g.CanonicalJSONLD()
+		// vocabulary modes: the profile's own prefix `ex` (declared) / a BUILT-IN prefix used without declaring it
+		// (data in that vocabulary) / a built-in prefix name re-bound by the profile to the example namespace.
+		// What a profile means must not depend on which other profiles the process compiled before it.
+		idOf := func(id string) string { return id }
+		switch (i / 16) % 4 { // workers take the cases i = k mod 16: modes alternate inside every worker
+		case 2:
+			const coreNS = "http://a.ml/vocabularies/core#"
+			ptext = strings.Replace(renameInProfileText(ptext, "core"), "prefixes:\n  ex: "+lib.EX+"\n", "", 1)
+			dtext = strings.ReplaceAll(dtext, lib.EX, coreNS)
+			idOf = func(id string) string { return strings.Replace(id, lib.EX, coreNS, 1) }
+			ctx.Count("profiles_using_builtin_prefix_undeclared", 1)
+		case 3:
+			ptext = strings.Replace(renameInProfileText(ptext, "core"), "  ex: "+lib.EX, "  core: "+lib.EX, 1)
+			ctx.Count("profiles_rebinding_builtin_prefix", 1)
+		}
 		o := lib.Validate(ptext, dtext)
 		func() {
 			replay := map[string]any{"profile": ptext, "data": dtext, "case": i}
@@ -159,10 +174,11 @@ func c01Workload(ctx *lib.Ctx, nSkel, total int) {
 				if g == nil {
 					g = []string{}
 				}
-				e := c.expected
-				if e == nil {
-					e = []string{}
+				e := []string{}
+				for _, id := range c.expected {
+					e = append(e, idOf(id))
 				}
+				sort.Strings(e)
 				if !lib.SetEq(g, e) {
 					rp := map[string]any{"profile": ptext, "data": dtext, "validation": c.name, "formula": lib.FString(c.f),
 						"expected": map[string]any{c.name: e}, "observed": g}
@@ -223,4 +239,12 @@ func coverAtoms(ctx *lib.Ctx, w *lib.World, f lib.F, parity int) {
 		coverAtoms(ctx, w, v.B, parity)
 		coverAtoms(ctx, w, v.C, parity)
 	}
+}
+
+// renameInProfileText renames the prefix `ex` in every compact IRI of a printed profile (the namespace IRI itself is protected).
+func renameInProfileText(ptext, to string) string {
+	const guard = "\x00NS\x00"
+	t := strings.ReplaceAll(ptext, lib.EX, guard)
+	t = renamePrefix(t, func() string { return to })
+	return strings.ReplaceAll(t, guard, lib.EX)
 }
